@@ -1441,3 +1441,143 @@ Proof.
     rewrite (sort_opt_sorted _ _ Hsorted). fold h. rewrite Hfix.
     rewrite (terminate_doc_emit_comments _ _ _ Hclosed), term_comments_idem. reflexivity.
 Qed.
+
+(* ---------------------------------------------------------------- the formatter's output, lexed line by line *)
+Lemma split_lf_go_nonempty s acc : split_lf_go s acc <> [].
+Proof. revert acc. induction s as [|c r IH]; intros acc; cbn [split_lf_go]; [discriminate|]. destruct (c =? 10)%N; [discriminate|apply IH]. Qed.
+
+Lemma split_lf_go_join s : forall acc l1 rest, split_lf_go s acc = l1 :: rest ->
+  acc ++ s = l1 ++ flat_map (fun t => LF :: t) rest.
+Proof.
+  induction s as [|c r IH]; intros acc l1 rest H; cbn [split_lf_go] in H.
+  - injection H as <- <-. reflexivity.
+  - destruct (c =? 10)%N eqn:E.
+    + apply N.eqb_eq in E. subst c. injection H as <- H. destruct rest as [|t rest'].
+      * exfalso. apply (split_lf_go_nonempty r [] H).
+      * cbn [flat_map]. f_equal. unfold LF. cbn [app]. f_equal. apply (IH [] t rest' H).
+    + rewrite <- (IH _ _ _ H), <- app_assoc. reflexivity.
+Qed.
+
+Lemma parse_value_text o w first conts : parse_value o = (w, first, conts) -> o = value_text w first conts.
+Proof.
+  unfold parse_value. destruct (span is_indent o) as [w0 r] eqn:Es. pose proof (span_app _ _ _ _ Es) as Eo.
+  destruct (split_lf r) as [|l1 rest] eqn:El; [exfalso; apply (split_lf_go_nonempty r [] El)|].
+  intros H. injection H as <- <- <-. unfold value_text. rewrite <- Eo. f_equal.
+  apply (split_lf_go_join r [] l1 rest El).
+Qed.
+
+Fixpoint pieces (cur : str) (conts : list str) : list str :=
+  match conts with
+  | [] => match cur with [] => [] | _ => [cur] end
+  | t :: r => (cur ++ [LF]) :: pieces t r
+  end.
+
+Lemma split_incl_noeol cur : forall X acc, no_eol cur = true ->
+  split_incl_go acc (cur ++ X) = split_incl_go (rev cur ++ acc) X.
+Proof.
+  induction cur as [|c r IH]; intros X acc H; [reflexivity|]. cbn [no_eol forallb] in H.
+  apply andb_true_iff in H. destruct H as [Hc Hr]. apply negb_true_iff in Hc.
+  cbn [app split_incl_go rev]. rewrite Hc, (IH X (c :: acc) Hr), <- app_assoc. reflexivity.
+Qed.
+
+Lemma split_incl_pieces conts : forall cur, no_eol cur = true -> forallb no_eol conts = true ->
+  split_inclusive_nl (cur ++ flat_map (fun t => LF :: t) conts) = pieces cur conts.
+Proof.
+  unfold split_inclusive_nl. induction conts as [|t r IH]; intros cur Hc Hr.
+  - cbn [flat_map pieces]. rewrite (split_incl_noeol cur [] [] Hc), app_nil_r. cbn [split_incl_go].
+    destruct cur as [|c cur']; [reflexivity|]. destruct (rev (c :: cur')) eqn:E.
+    + apply (f_equal (@length N)) in E. rewrite rev_length in E. discriminate.
+    + rewrite <- E, rev_involutive. reflexivity.
+  - cbn [forallb] in Hr. apply andb_true_iff in Hr. destruct Hr as [Ht Hr].
+    cbn [flat_map pieces]. rewrite (split_incl_noeol cur _ [] Hc), app_nil_r. cbn [app split_incl_go].
+    change (is_newline LF) with true. cbv iota. cbn [rev]. rewrite rev_involutive. f_equal. apply IH; assumption.
+Qed.
+
+Lemma lex_inline_lexf s : lex_inline s = lexf st_val s.
+Proof. reflexivity. Qed.
+
+Lemma canon_cont_parts t : canon_cont t = true ->
+  no_eol t = true /\ match t with x :: _ => is_indent x = false | [] => False end.
+Proof.
+  unfold canon_cont. intros H. apply andb_true_iff in H. destruct H as [H1 H2]. split; [exact H1|].
+  destruct t; [discriminate|]. apply andb_true_iff in H2. destruct H2 as [H2 _]. apply negb_true_iff in H2. exact H2.
+Qed.
+
+Lemma lex_inline_line w first (nl : bool) :
+  ws_ok w = true -> first_ok first = true ->
+  lex_inline (w ++ first ++ (if nl then [LF] else [])) =
+  Ok (opt_tok WHITESPACE w ++ opt_tok VALUE first ++ (if nl then [(NEWLINE, [LF])] else [])).
+Proof.
+  intros Hw Hf. rewrite lex_inline_lexf. unfold first_ok in Hf. apply andb_true_iff in Hf. destruct Hf as [Hne Hhd].
+  assert (Hend : lexf st_val (if nl then [LF] else []) = Ok (if nl then [(NEWLINE, [LF])] else [])).
+  { destruct nl; [|reflexivity]. apply lexf_lf; [tauto|reflexivity]. }
+  apply lexf_ws; [exact Hw| |].
+  - destruct first as [|x first']; [destruct nl; [reflexivity|exact I]|]. cbn [app stops]. apply negb_true_iff. exact Hhd.
+  - apply lexf_value; [left; reflexivity|exact Hne| |destruct nl; [reflexivity|exact I]|exact Hend].
+    destruct first as [|x first']; [exact I|]. split; [apply negb_true_iff; exact Hhd|discriminate].
+Qed.
+
+Fixpoint ptoks (t : str) (r : list str) : list (list token) :=
+  match r with
+  | [] => [[(VALUE, t)]]
+  | t2 :: r2 => [(VALUE, t); (NEWLINE, [LF])] :: ptoks t2 r2
+  end.
+
+Lemma res_map_lex_pieces r : forall t, canon_cont t = true -> forallb canon_cont r = true ->
+  res_map lex_inline (pieces t r) = Ok (ptoks t r).
+Proof.
+  induction r as [|t2 r2 IH]; intros t Ht Hr.
+  - destruct (canon_cont_parts t Ht) as [Hne Hhd]. destruct t as [|x t']; [contradiction|].
+    cbn [pieces res_map ptoks]. pose proof (lex_inline_line [] (x :: t') false eq_refl (canon_cont_first_ok _ Ht)) as E.
+    cbn [app opt_tok] in E. rewrite app_nil_r in E. rewrite E. reflexivity.
+  - cbn [forallb] in Hr. apply andb_true_iff in Hr. destruct Hr as [Ht2 Hr2].
+    cbn [pieces res_map ptoks]. pose proof (lex_inline_line [] t true eq_refl (canon_cont_first_ok _ Ht)) as E.
+    cbn [app] in E. rewrite E. cbn [bind]. rewrite (IH t2 Ht2 Hr2). cbn [bind].
+    destruct (canon_cont_parts t Ht) as [_ Hhd]. destruct t; [contradiction|]. reflexivity.
+Qed.
+
+Lemma concat_ptoks r : forall t, concat (ptoks t r) = (VALUE, t) :: line_toks r.
+Proof. induction r as [|t2 r2 IH]; intros t; [reflexivity|]. cbn [ptoks concat app]. rewrite IH. reflexivity. Qed.
+
+Lemma ws_ok_no_eol w : ws_ok w = true -> no_eol w = true.
+Proof.
+  unfold ws_ok, no_eol. induction w as [|c r IH]; [reflexivity|]. cbn [forallb]. intros H.
+  apply andb_true_iff in H. destruct H as [Hc Hr]. rewrite (IH Hr), andb_true_r.
+  unfold is_indent, is_newline in *. destruct (c =? 32)%N eqn:E1; [apply N.eqb_eq in E1; subst; reflexivity|].
+  destruct (c =? 9)%N eqn:E2; [apply N.eqb_eq in E2; subst; reflexivity|]. discriminate.
+Qed.
+
+Lemma no_eol_app a b : no_eol (a ++ b) = no_eol a && no_eol b.
+Proof. apply forallb_app. Qed.
+
+Theorem fmt_tokens_value_text w first conts :
+  ws_ok w = true -> first_ok first = true -> forallb canon_cont conts = true ->
+  fmt_tokens fixed (value_text w first conts) = Ok (triple_toks w first conts).
+Proof.
+  intros Hw Hf Hc. unfold fmt_tokens. cbn [v_fmt_lines fixed]. unfold value_text. rewrite app_assoc.
+  assert (Hnf : no_eol first = true) by (unfold first_ok in Hf; apply andb_true_iff in Hf; apply Hf).
+  assert (Hnc : forallb no_eol conts = true).
+  { clear - Hc. induction conts as [|t r IH]; [reflexivity|]. cbn [forallb] in *. apply andb_true_iff in Hc. destruct Hc as [H1 H2].
+    rewrite (IH H2), andb_true_r. apply (canon_cont_parts t H1). }
+  rewrite split_incl_pieces; [|rewrite no_eol_app, (ws_ok_no_eol w Hw), Hnf; reflexivity|exact Hnc].
+  unfold triple_toks. destruct conts as [|t r].
+  - cbn [pieces flat_map]. rewrite app_nil_r. destruct (w ++ first) as [|x y] eqn:E.
+    + apply app_eq_nil in E. destruct E as [-> ->]. reflexivity.
+    + rewrite <- E. cbn [res_map]. pose proof (lex_inline_line w first false Hw Hf) as El. rewrite !app_nil_r in El.
+      rewrite El. cbn [bind concat]. rewrite app_nil_r. reflexivity.
+  - cbn [forallb] in Hc. apply andb_true_iff in Hc. destruct Hc as [Ht Hr].
+    cbn [pieces res_map]. rewrite <- app_assoc. rewrite (lex_inline_line w first true Hw Hf). cbn [bind].
+    rewrite (res_map_lex_pieces r t Ht Hr). cbn [bind concat]. rewrite concat_ptoks.
+    rewrite <- !app_assoc. reflexivity.
+Qed.
+
+Theorem shaped_lexes fmt f : fmt_shaped_on fmt f = true -> fmt_lexes fmt f.
+Proof.
+  destruct fmt as [g|]; [|intros _; exact I]. cbn [fmt_shaped_on fmt_lexes]. cbv zeta. unfold shaped.
+  set (o := g (f_name f) (value_text (field_ws0 f) (f_first f) (map snd (f_cont f)))).
+  pose proof (parse_value_ws_ok o) as Hw. pose proof (parse_value_text o) as Ho.
+  destruct (parse_value o) as [[w first] conts]. cbn [fst] in Hw. intros H.
+  apply andb_true_iff in H. destruct H as [H _]. apply andb_true_iff in H. destruct H as [H1 H2].
+  split; [|apply canon_cont_nonempty; exact H2].
+  rewrite (Ho w first conts eq_refl). apply fmt_tokens_value_text; assumption.
+Qed.
